@@ -194,7 +194,9 @@ OutcomeOfJson(o) == o       \* JSON arrays are tuples already: <<"none">>, <<"wi
 \* what a move-like value denotes among the legal moves of `pos`; "unknown" for kinds the spec
 \* cannot decode yet (then only soundness is required: an accepted move must be legal)
 LikeKnown(like) == like.t \in {"move", "uci", "ucimove"}
+IsTryLike(like) == like.t = "try"
 IsSanLike(like) == like.t \in {"san", "sanmove"}
+\* (TryUnchecked: a legal move, or the null move when the mover is not in check - its documented contract)
 Denotes(LS, like) ==
   CASE like.t = "move" -> {MoveOfJson(like.m)} \cap LS
     [] like.t \in {"uci", "ucimove"} -> UciDenotes(LS, like.text)
@@ -263,14 +265,16 @@ ChainChecks(e) ==
              d == Denotes(LS, e.like)
              known == LikeKnown(e.like)
              m == IF e.res = "ok" THEN MoveOfJson(e.m) ELSE NullMove
+             tryOK == IsTryLike(e.like) /\ m = MoveOfJson(e.like.m) /\ (m \in LS \/ (m = NullMove /\ ~InCheck(cur)))
          IN {<<"no_panic", e.res # "panic">>,
              <<"push_precondition", ch.outcome = NoOutcome>>,
              <<"accepted_iff_legal", known => ((e.res = "ok") <=> (Cardinality(d) = 1))>>,
              <<"accepted_move_is_the_denoted_legal_move",
-                 e.res = "ok" => (m \in LS /\ (known => m \in d))>>,
+                 e.res = "ok" => (IF IsTryLike(e.like) THEN tryOK ELSE (m \in LS /\ (known => m \in d)))>>,
+             <<"try_unchecked_within_contract_is_accepted", IsTryLike(e.like) => e.res = "ok">>,
              <<"san_text_sound_and_complete", IsSanLike(e.like) => SanLikeOK(cur, LS, e.like, e.res, m)>>,
              <<"refused_push_changes_nothing", e.res # "ok" => e.obs = pobs>>}
-            \cup (IF e.res = "ok" /\ m \in LS THEN ObsChecks(ChPush(ch, m), e.obs) ELSE {})
+            \cup (IF e.res = "ok" /\ (m \in LS \/ tryOK) THEN ObsChecks(ChPush(ch, m), e.obs) ELSE {})
     [] e.ev = "c_pop" ->
          {<<"pop_result", IF ChLen(ch) = 0 THEN e.res = "none"
                           ELSE e.res = "some" /\ MoveOfJson(e.m) = ch.moves[ChLen(ch)]>>}
@@ -292,9 +296,11 @@ ChainChecks(e) ==
          \cup {<<"walk_leaves_chain_untouched", e.chain_untouched /\ e.obs = pobs>>}
     [] e.ev = "c_text" ->
          {<<"uci_list_text", e.uci = UciListText(ch)>>,
+          \* (a chain holding a null move prints it as 0000, which is deliberately not playable back)
           <<"uci_list_rebuilds_equal_chain",
-              e.uci_rebuilt.ok /\ e.uci_rebuilt.eq /\ PosOfJson(e.uci_rebuilt.last) = cur
-              /\ MoveSeqOfJson(e.uci_rebuilt.moves) = ch.moves>>,
+              (\E i \in 1..ChLen(ch) : ch.moves[i] = NullMove)
+              \/ (e.uci_rebuilt.ok /\ e.uci_rebuilt.eq /\ PosOfJson(e.uci_rebuilt.last) = cur
+                  /\ MoveSeqOfJson(e.uci_rebuilt.moves) = ch.moves)>>,
           <<"text_changes_nothing", e.obs = pobs>>}
          \cup StyledChecks(ch, e.styled)
     [] e.ev = "c_eq" ->
@@ -315,7 +321,8 @@ ChainNext(e) ==
     [] e.ev = "c_set_auto" -> [ch EXCEPT !.outcome = e.res]
     [] OTHER -> ch
 ChainDiverged(e, failed) ==
-     (e.ev = "c_push" /\ e.res = "ok" /\ MoveOfJson(e.m) \notin Legal(Cur(ch)))
+     (e.ev = "c_push" /\ e.res = "ok" /\ MoveOfJson(e.m) \notin Legal(Cur(ch))
+        /\ ~(IsTryLike(e.like) /\ MoveOfJson(e.m) = NullMove /\ ~InCheck(Cur(ch))))
   \/ "obs_position_is_replay" \in failed \/ "obs_moves" \in failed \/ "obs_len" \in failed
 
 (***************************************************************************)
